@@ -14,6 +14,12 @@ non-negativity, total power, `p_i = max(0, mu - N/(Es g_i))` for the returned
 `mu`, KKT conditions, capacity against competitors (independent bisection
 solution, uniform / best-channel / perturbed / projected-gradient allocations),
 permutation equivariance.
+
+Robustness classes (second round): the same logical values are also delivered as
+other element types / containers (R1), memory layouts and shapes (R2), with
+argument snapshots and aliasing checks (R3), around rejected calls (R4), at
+boundary values (R5), at scales 1e-12..1e12 (R6) and through one shared gain
+array used by many calls (R7); see `build_input` and the `o_*` oracles below.
 """
 import json
 import math
@@ -43,10 +49,24 @@ CLAIM = {
             'replay input when the tie breaks.',
     'note': 'Trusted additions: np.argsort is a parameter with a contract (permutation, non-decreasing gains), '
             'checked on every case; binary64 rounding is outside the theorems (allocation and level compared at '
-            '1e-9 relative to max(1, P, mu); bit-exact on the dyadic stream; the discrete number of switched-off '
-            'channels compared only when every loop test is >= 1e-9 away from equality, since the allocation is '
-            'continuous across such ties). Hand model (no translator): a behaviour the generators do not reach is '
-            'not tied. Finding fixed in the worktree: returned level omitted Es (commit 2825de0).',
+            '1e-9 relative to max(P, best level, mu) - no absolute floor; 1e-5 for float32 gain arrays; bit-exact '
+            'on the dyadic stream; the discrete number of switched-off channels compared only when every loop test '
+            'is >= 1e-9 away from equality, since the allocation is continuous across such ties). Hand model (no '
+            'translator): a behaviour the generators do not reach is not tied. Robustness classes: R6 (change of '
+            'units: P,N x s; g,N x s; g/s, Es x s) and R5 (P = 0, single channel) are THEOREMS '
+            '(wf_scale_power_noise, wf_scale_gain_noise, wf_scale_gain_energy, wf_zero_power, wf_single_channel) '
+            'and are also exercised by correspondence + oracles (inputs at 1e-12..1e12, sizes 2^k-1/2^k/2^k+1, '
+            'power exactly at a threshold). R1 (int8..int64/uint8/uint16/float32 gain arrays, Python int / narrow '
+            'numpy int / float32 / float16 / 0-d scalars, lists and tuples; result must be a float array equal to '
+            'the float64 twin), R2 (strided, reversed, column, Fortran-row, read-only, broadcast views; 0-d, '
+            '(n,1), (1,n), 3-D shapes rejected or read as the flat vector), R3 (arguments unchanged, result never '
+            'aliases arguments or earlier results, earlier results stay put), R4 (negative P, None, empty, 2-D, '
+            'str noise: arguments untouched, next call equals a fresh one) and R7 (one gain array shared by '
+            'interleaved repeated calls) are covered by correspondence / oracles ONLY: on the model side they '
+            'are vacuous (wf_function_of_values: the model is a pure function of the list of logical values, '
+            'has no state, dtype or layout). complex gains are outside the domain (power gains are real) and not '
+            'exercised. Findings fixed: returned level omitted Es (2825de0 = /repo 43c7aee); arithmetic done in '
+            'the dtype of the gains - integer wrap-around of Es*g, half/single precision results (3fb713c).',
 }
 
 
@@ -78,17 +98,115 @@ def parse_reply(s):
             'mu': Fraction(d['mu']), 'kept': int(d['kept']), 'margin': Fraction(d['margin'])}
 
 
-def run_impl(case):
+INT_TYPES = ('int8', 'uint8', 'int16', 'uint16', 'int32', 'int64')
+NARROW_INT = ('int8', 'uint8', 'int16', 'uint16')
+SCALAR_CONV = {
+    'pyfloat': float, 'pyint': lambda x: int(x), 'float64': np.float64, 'float32': np.float32,
+    'float16': np.float16, '0d': lambda x: np.array(float(x)),
+    'int8': np.int8, 'uint8': np.uint8, 'int16': np.int16, 'uint16': np.uint16, 'int32': np.int32,
+    'int64': np.int64,
+}
+
+
+def build_input(case):
+    """(gains object, P, N, Es) as handed to doWF.  `case['g'], P, N, Es` are the LOGICAL values
+    (binary64); `case['variant']` says in which element type / container / memory layout / shape
+    they are delivered (R1, R2).  The values must be exactly representable in the chosen type."""
+    v = case.get('variant') or {}
+    garr = v.get('garr', 'float64')
+    vals = [float(x) for x in case['g']]
+    n = len(vals)
+    base = np.array(vals, dtype=garr)
+    if not np.array_equal(base.astype(np.float64), np.array(vals, dtype=np.float64)):
+        raise core.Infra('variant %r cannot hold the gains %r exactly' % (v, vals))
+    layout = v.get('layout', 'contig')
+    filler = base[::-1] if n else base
+    if layout == 'contig':
+        g = base
+    elif layout == 'strided':
+        big = np.empty(2 * n + 1, dtype=garr)
+        big[0::2][:n] = filler
+        big[-1] = base[0] if n else 0
+        big[1::2] = base
+        g = big[1::2]
+    elif layout == 'reversed':
+        g = np.ascontiguousarray(base[::-1])[::-1]
+    elif layout == 'column':
+        A = np.empty((n, 3), dtype=garr)
+        A[:, 0] = filler
+        A[:, 2] = filler
+        A[:, 1] = base
+        g = A[:, 1]
+    elif layout == 'fcolumn':
+        A = np.empty((3, n), dtype=garr, order='F')
+        A[0, :] = filler
+        A[2, :] = filler
+        A[1, :] = base
+        g = A[1, :]
+    elif layout == 'broadcast':
+        if len(set(vals)) != 1:
+            raise core.Infra('broadcast layout needs equal gains')
+        g = np.broadcast_to(base[:1], (n,))
+    elif layout == 'readonly':
+        g = base.copy()
+        g.flags.writeable = False
+    else:
+        raise core.Infra('unknown layout %r' % layout)
+    shape = v.get('shape')
+    if shape == 'col2d':
+        g = g.reshape(n, 1)
+    elif shape == 'row2d':
+        g = g.reshape(1, n)
+    elif shape == '3d':
+        g = g.reshape(1, n, 1)
+    elif shape == '0d':
+        g = np.array(vals[0], dtype=garr)
+    cont = v.get('container', 'ndarray')
+    if cont == 'list':
+        g = base.tolist()
+    elif cont == 'tuple':
+        g = tuple(base.tolist())
+    conv = SCALAR_CONV[v.get('scalars', 'pyfloat')]
+    out = [g]
+    for k in ('P', 'N', 'Es'):
+        x = conv(case[k])
+        if float(x) != float(case[k]):
+            raise core.Infra('variant %r cannot hold %s=%r exactly' % (v, k, case[k]))
+        out.append(x)
+    return tuple(out)
+
+
+def call_raw(args):
     wf = _impl()
-    g = np.array(case['g'], dtype=float)
     with np.errstate(all='ignore'):
-        p, mu = wf.doWF(g, float(case['P']), float(case['N']), float(case['Es']))
+        import warnings
+        with warnings.catch_warnings():
+            warnings.simplefilter('ignore')
+            return wf.doWF(*args)
+
+
+def run_impl(case):
+    p, mu = call_raw(build_input(case))
     return np.asarray(p, dtype=float), float(mu)
 
 
+def twin(case):
+    """the same logical values as a C-contiguous float64 array and Python floats"""
+    c = {k: case[k] for k in ('g', 'P', 'N', 'Es')}
+    return c
+
+
+def rtol_of(case):
+    """1e-9, except that a float32 gain array legitimately limits the precision"""
+    v = case.get('variant') or {}
+    return 1e-5 if v.get('garr') == 'float32' else RTOL
+
+
 def scale_of(case, mu=None):
+    """magnitude the comparisons are relative to: the largest of total power, best level and water
+    level — no absolute floor, so that a change of units rescales every tolerance (R6)"""
     a_best = case['N'] / (case['Es'] * max(case['g']))
-    s = max(1.0, abs(case['P']), abs(a_best))
+    s = max(abs(case['P']), abs(a_best))
     if mu is not None and math.isfinite(mu):
         s = max(s, abs(mu))
     return s
@@ -100,7 +218,8 @@ def has_ties(case):
 
 def capacity(case, q):
     g = np.array(case['g'], dtype=float)
-    return float(np.sum(np.log2(1.0 + g * case['Es'] * np.asarray(q, dtype=float) / case['N'])))
+    # log1p keeps full relative precision at tiny SNR (needed for scale independence, R6)
+    return float(np.sum(np.log1p(g * case['Es'] * np.asarray(q, dtype=float) / case['N'])) / math.log(2.0))
 
 
 def bisect_wf(case):
@@ -139,7 +258,7 @@ def o_alloc(case):
     if p.shape != (n,) or not np.all(np.isfinite(p)) or not math.isfinite(mu):
         return 'shape-or-nonfinite', 'p=%r mu=%r' % (p.tolist(), mu)
     s = scale_of(case, mu)
-    tol = RTOL * s
+    tol = rtol_of(case) * s
     if p.min() < -tol:
         return 'negative-power', 'min p = %r' % float(p.min())
     if abs(float(p.sum()) - case['P']) > tol * max(1, n):
@@ -163,7 +282,7 @@ def o_optimal(case):
     s = scale_of(case)
     pb, mub = bisect_wf(case)
     s = max(s, mub)
-    tol = RTOL * s
+    tol = rtol_of(case) * s
     act = p > 0
     if not act.any():
         return 'not-optimal:kkt', 'no channel gets power'
@@ -175,7 +294,7 @@ def o_optimal(case):
         return 'not-optimal:kkt', 'switched-off channel %d has level %r below the water level %r' % (
             j, float(a[j]), float(lev.min()))
     cp = capacity(case, np.maximum(p, 0.0))
-    slack = 1e-12 * max(1.0, abs(cp)) * max(1, n)
+    slack = 1e-12 * abs(cp) * max(1, n)
     rng = core.Rng(int(case.get('oseed', 0)), 'c12-competitors')
     comps = [('bisection', pb), ('uniform', np.full(n, case['P'] / n))]
     best = np.zeros(n)
@@ -197,10 +316,10 @@ def o_optimal(case):
             break
         comps.append(('pg%d' % t, q.copy()))
     for name, q in comps:
-        if abs(q.sum() - case['P']) > 1e-9 * max(1.0, case['P']) or q.min() < 0:
+        if abs(q.sum() - case['P']) > 1e-9 * case['P'] or q.min() < 0:
             continue
         cq = capacity(case, q)
-        if cq > cp + slack and cq > cp * (1 + 1e-9) + 1e-9:
+        if cq > cp + slack and cq > cp * (1 + max(1e-9, 10 * rtol_of(case))):
             return 'not-optimal:competitor', '%s allocation reaches %r > %r' % (name, cq, cp)
     # the independent solution must be the same point
     if np.max(np.abs(pb - p)) > 10 * tol:
@@ -215,7 +334,7 @@ def o_perm(case):
     c2 = dict(case)
     c2['g'] = [case['g'][i] for i in sigma]
     p2, mu2 = run_impl(c2)
-    tol = RTOL * scale_of(case, mu)
+    tol = rtol_of(case) * scale_of(case, mu)
     cls = 'perm:ties' if has_ties(case) else 'perm:distinct'
     if p2.shape != p.shape:
         return cls, 'shape %r vs %r' % (p2.shape, p.shape)
@@ -225,7 +344,239 @@ def o_perm(case):
     return None
 
 
-ORACLES = {'doWF': o_alloc, 'doWF.optimal': o_optimal, 'doWF.permute': o_perm}
+# ------------------------------------------------------------------ robustness classes R1-R7
+def variant_kind(v):
+    """class label of an input variant, computed from the input only"""
+    v = v or {}
+    parts = []
+    garr = v.get('garr', 'float64')
+    if garr in NARROW_INT:
+        parts.append('narrow-int-array')
+    elif garr in INT_TYPES:
+        parts.append('int-array')
+    elif garr != 'float64':
+        parts.append(garr + '-array')
+    sc = v.get('scalars', 'pyfloat')
+    if sc in NARROW_INT:
+        parts.append('narrow-int-scalars')
+    elif sc in INT_TYPES or sc == 'pyint':
+        parts.append('int-scalars')
+    elif sc != 'pyfloat':
+        parts.append(sc + '-scalars')
+    if v.get('container', 'ndarray') != 'ndarray':
+        parts.append(v['container'])
+    return '+'.join(parts) or 'float64'
+
+
+def int_product_overflows(case):
+    """Es * gain leaves the range of the gain array's integer dtype although both are integers"""
+    v = case.get('variant') or {}
+    garr, sc = v.get('garr', 'float64'), v.get('scalars', 'pyfloat')
+    if garr in INT_TYPES and (sc in INT_TYPES or sc == 'pyint'):
+        out = np.result_type(garr, sc) if sc != 'pyint' else np.dtype(garr)
+        return case['Es'] * max(case['g']) > np.iinfo(out).max
+    return False
+
+
+def snapshot(x):
+    if isinstance(x, np.ndarray):
+        return ('nd', x.dtype.str, x.shape, x.strides, np.ascontiguousarray(x).tobytes(), x.flags.writeable)
+    if isinstance(x, np.generic):
+        return ('sc', x.dtype.str, x.tobytes())
+    return ('py', type(x).__name__, repr(x))
+
+
+def same_result(a, b, rel):
+    """(p, mu) pairs equal up to `rel` relative to the largest magnitude involved"""
+    pa, pb = np.asarray(a[0], dtype=float), np.asarray(b[0], dtype=float)
+    ma, mb = np.asarray(a[1], dtype=float).reshape(-1), np.asarray(b[1], dtype=float).reshape(-1)
+    if ma.size != 1 or mb.size != 1:
+        return False
+    ma, mb = float(ma[0]), float(mb[0])
+    if pa.shape != pb.shape:
+        return False
+    sc = max(abs(ma), abs(mb), float(np.max(np.abs(pb))) if pb.size else 0.0)
+    return bool(np.all(np.abs(pa - pb) <= rel * sc)) and abs(ma - mb) <= rel * sc
+
+
+def o_dtype(case):
+    """R1: the same values in another element type / container give the float64 result, and the
+    result is stored in a floating-point array (no truncation)"""
+    v = case.get('variant') or {}
+    kind = 'R1:' + variant_kind(v)
+    if int_product_overflows(case):
+        kind += ':Es*g-exceeds-int-range'
+    ref = run_impl(twin(case))
+    args = build_input(case)
+    try:
+        p, mu = call_raw(args)
+    except (TypeError, AttributeError) as e:
+        if v.get('container', 'ndarray') != 'ndarray':
+            return None          # the API takes arrays; a list may be rejected, never mis-handled
+        return kind, 'raises %r' % e
+    if not isinstance(p, np.ndarray) or p.dtype.kind != 'f':
+        return kind, 'allocation returned as %s of dtype %s' % (type(p).__name__, getattr(p, 'dtype', None))
+    if not same_result((p, mu), ref, rtol_of(case)):
+        return kind, 'p=%r mu=%r but the float64 twin gives p=%r mu=%r' % (
+            np.asarray(p).tolist(), float(mu), ref[0].tolist(), ref[1])
+    return None
+
+
+def o_layout(case):
+    """R2: strided / reversed / broadcast / read-only views give exactly the result of the
+    C-contiguous copy; shapes the function is not defined for (0-d, 2-D, 3-D) are rejected or
+    treated as the flattened vector, never silently mis-indexed"""
+    v = case.get('variant') or {}
+    kind = 'R2:' + (v.get('shape') or v.get('layout', 'contig'))
+    flat = dict(case)
+    flat['variant'] = {k: x for k, x in v.items() if k not in ('layout', 'shape')}
+    if v.get('shape') == '0d':
+        flat['g'] = case['g'][:1]
+    ref = run_impl(flat)
+    try:
+        p, mu = call_raw(build_input(case))
+    except Exception as e:
+        if v.get('shape'):
+            return None
+        return kind, 'raises %r' % e
+    p = np.asarray(p)
+    if v.get('shape'):
+        p = p.reshape(-1)
+    if not same_result((p, mu), ref, 1e-12):
+        return kind, 'p=%r mu=%r but the contiguous copy gives p=%r mu=%r' % (
+            p.tolist(), float(mu), ref[0].tolist(), ref[1])
+    return None
+
+
+def o_immutable(case):
+    """R3: arguments are not modified (now or by later calls), the result does not alias them, and
+    results of earlier calls do not change when the function is called again"""
+    kind = 'R3:' + variant_kind(case.get('variant')) + ':' + (case.get('variant') or {}).get('layout', 'contig')
+    args = build_input(case)
+    before = [snapshot(a) for a in args]
+    p1, mu1 = call_raw(args)
+    if [snapshot(a) for a in args] != before:
+        return kind, 'an argument was modified by the call'
+    if isinstance(args[0], np.ndarray) and np.shares_memory(p1, args[0]):
+        return kind, 'the returned allocation shares memory with the gain array'
+    keep = np.array(p1, copy=True)
+    keep_mu = float(mu1)
+    other = dict(case)
+    other['P'] = case['P'] * 2
+    p2, _ = call_raw(build_input(other))
+    rev = dict(case)
+    rev['g'] = case['g'][::-1]
+    p3, _ = call_raw(build_input(rev))
+    p4, mu4 = call_raw(args)
+    if np.shares_memory(p1, p2) or np.shares_memory(p1, p3) or np.shares_memory(p1, p4):
+        return kind, 'two calls returned overlapping buffers'
+    if not np.array_equal(p1, keep) or float(mu1) != keep_mu:
+        return kind, 'the result of an earlier call changed after later calls'
+    if isinstance(p1, np.ndarray) and p1.flags.writeable and p1.dtype.kind == 'f':
+        p1[...] = -1.0          # scribbling over a result must not reach the function's state
+    p5, mu5 = call_raw(args)
+    if not np.array_equal(np.asarray(p5), keep) or float(mu5) != keep_mu or not np.array_equal(np.asarray(p4), keep):
+        return kind, 'a repeated call with the same arguments returned a different result'
+    if [snapshot(a) for a in args] != before:
+        return kind, 'an argument was modified by a later call'
+    return None
+
+
+REJECTS = ('negative-P', 'None-P', 'empty', 'col2d', 'str-N')
+
+
+def o_rejected(case):
+    """R4: a rejected call leaves its arguments untouched and does not influence later calls"""
+    rj = case['reject']
+    kind = 'R4:' + rj
+    args = build_input(case)
+    g = args[0]
+    before = [snapshot(a) for a in args]
+    if rj == 'negative-P':
+        bad = (g, -abs(float(case['P'])), args[2], args[3])
+    elif rj == 'None-P':
+        bad = (g, None, args[2], args[3])
+    elif rj == 'empty':
+        bad = (g[:0], args[1], args[2], args[3])
+    elif rj == 'col2d':
+        bad = (g.reshape(len(case['g']), 1), args[1], args[2], args[3])
+    else:
+        bad = (g, args[1], 'noise', args[3])
+    raised = None
+    try:
+        r = call_raw(bad)
+    except Exception as e:
+        raised = e
+    if [snapshot(a) for a in args] != before:
+        return kind, 'arguments modified by the rejected call (%r)' % (raised,)
+    if raised is None and rj in ('negative-P', 'empty', 'col2d'):
+        # not rejected: then it must at least not be a wrong answer for a valid reading of the input
+        rp = np.asarray(r[0], dtype=float).reshape(-1)
+        if rj == 'col2d':
+            if not same_result((rp, r[1]), run_impl(case), 1e-12):
+                return kind, '(n,1) input accepted with result %r' % (rp.tolist(),)
+        elif rp.size and (not np.all(np.isfinite(rp)) or rp.min() < 0):
+            return kind, 'accepted with allocation %r' % (rp.tolist(),)
+    after = call_raw(args)
+    fresh = call_raw(build_input(case))
+    if not np.array_equal(np.asarray(after[0]), np.asarray(fresh[0])) or float(after[1]) != float(fresh[1]):
+        return kind, 'the call after the rejected one differs from a fresh call'
+    return None
+
+
+def o_scale(case):
+    """R6: a change of units rescales the result and nothing else"""
+    sc = case['scale']
+    s = float(sc['s'])
+    kind = 'R6:%s:%s' % (sc['kind'], 's<1' if s < 1 else 's>1')
+    base = run_impl(case)
+    c2 = dict(case)
+    if sc['kind'] == 'power-noise':
+        c2['P'], c2['N'] = case['P'] * s, case['N'] * s
+        want = (base[0] * s, base[1] * s)
+    elif sc['kind'] == 'gain-noise':
+        c2['g'], c2['N'] = [x * s for x in case['g']], case['N'] * s
+        want = base
+    else:
+        c2['g'], c2['Es'] = [x / s for x in case['g']], case['Es'] * s
+        want = base
+    got = run_impl(c2)
+    exact = math.frexp(s)[0] == 0.5        # power of two: binary64 arithmetic commutes with it
+    if not same_result(got, want, 1e-12 if exact else 1e-9):
+        return kind, 'scaled input gives p=%r mu=%r, expected p=%r mu=%r' % (
+            got[0].tolist(), got[1], np.asarray(want[0]).tolist(), float(want[1]))
+    r = o_alloc(c2)
+    if r is not None:
+        return kind + ':' + r[0], r[1]
+    return None
+
+
+def o_history(case):
+    """R7: one gain array shared by many calls (different powers, repeated, interleaved) — every
+    call returns what an isolated call on a private copy returns"""
+    kind = 'R7:shared-gains:' + variant_kind(case.get('variant'))
+    args = build_input(case)
+    g = args[0]
+    before = snapshot(g)
+    got = []
+    for f in case['powers']:
+        got.append((f, call_raw((g, args[1] * f, args[2], args[3]))))
+    for f, r in got:
+        c = dict(case)
+        c['P'] = case['P'] * f
+        a2 = build_input(case)
+        fresh = call_raw((a2[0], a2[1] * f, a2[2], a2[3]))
+        if not np.array_equal(np.asarray(r[0]), np.asarray(fresh[0])) or float(r[1]) != float(fresh[1]):
+            return kind, 'call with P*%r in the history returned %r, an isolated call %r' % (
+                f, np.asarray(r[0]).tolist(), np.asarray(fresh[0]).tolist())
+    if snapshot(g) != before:
+        return kind, 'the shared gain array was modified'
+    return None
+
+
+ORACLES = {'doWF': o_alloc, 'doWF.optimal': o_optimal, 'doWF.permute': o_perm,
+           'doWF.dtype': o_dtype, 'doWF.layout': o_layout, 'doWF.immutable': o_immutable,
+           'doWF.rejected': o_rejected, 'doWF.scale': o_scale, 'doWF.history': o_history}
 
 
 def run_oracle(ctx, call, case, nontrivial=True):
@@ -362,7 +713,10 @@ def corpus_cases():
 
 
 def clean(case):
-    return {k: case[k] for k in ('g', 'P', 'N', 'Es')}
+    c = {k: case[k] for k in ('g', 'P', 'N', 'Es')}
+    if case.get('variant'):
+        c['variant'] = dict(case['variant'])
+    return c
 
 
 # ------------------------------------------------------------------ correspondence
@@ -396,11 +750,11 @@ def compare_one(ctx, case, m):
         ctx.branch('error-case')
         return
     s = scale_of(cc, float(m['mu']))
-    tol = RTOL * s
+    tol = rtol_of(cc) * s
     mp = np.array([float(x) for x in m['p']])
     # binary64 evaluation is exact when gains, N, Es are powers of two (all levels dyadic) and
     # the model's result is a short dyadic (then so is every intermediate of the code)
-    dyadic_exact = case.get('style') == 'dyadic' and all(
+    dyadic_exact = case.get('style') == 'dyadic' and rtol_of(cc) == RTOL and all(
         math.frexp(x)[0] == 0.5 for x in cc['g'] + [cc['N'], cc['Es']]) and all(
         (x.denominator & (x.denominator - 1)) == 0 and x.denominator <= 2 ** 30 and x.numerator < 2 ** 45
         for x in m['p'] + [m['mu']])
@@ -420,7 +774,7 @@ def compare_one(ctx, case, m):
         okm = abs(mu - float(m['mu'])) <= tol
         ctx.corr('doWF.mu', cc, 'agree' if okm else 'mu=%r' % mu, 'agree' if okm else 'mu=%r' % float(m['mu']),
                  nontrivial=nontrivial, key=('wfm', key))
-    if m['margin'] >= Fraction(1, 10 ** 9):
+    if m['margin'] >= (Fraction(1, 10 ** 9) if rtol_of(cc) == RTOL else Fraction(1, 1000)):
         ik = int(np.count_nonzero(p))
         ctx.corr('doWF.kept', cc, str(ik), str(m['kept']), nontrivial=nontrivial, key=('wfk', key))
     else:
@@ -438,6 +792,11 @@ def compare_one(ctx, case, m):
         ctx.branch('n>=32')
     if max(cc['g']) / min(cc['g']) >= 1e9:
         ctx.branch('gain-spread>=1e9')
+    for b in case.get('branches', ()):
+        ctx.branch(b)
+    if cc.get('variant'):
+        ctx.branch('corr:R1/R2-variant:' + variant_kind(cc['variant']) + ':'
+                   + cc['variant'].get('layout', 'contig'))
     ctx.sample({'call': 'doWF', 'case': cc, 'impl': {'p': p.tolist(), 'mu': mu},
                 'model': {'p': [str(x) for x in m['p']], 'mu': str(m['mu']), 'kept': m['kept']}})
 
@@ -447,10 +806,176 @@ def malformed(ctx):
     drv = core.Driver(DRIVER)
     cases = [{'g': [], 'P': 1.0, 'N': 1.0, 'Es': 1.0},
              {'g': [3.0], 'P': -1.0, 'N': 1.0, 'Es': 1.0},
-             {'g': [3.0, 1.0, 2.0], 'P': -0.5, 'N': 1.0, 'Es': 2.0}]
+             {'g': [3.0, 1.0, 2.0], 'P': -0.5, 'N': 1.0, 'Es': 2.0},
+             # R5: exactly zero power / zero noise (outside the quantifier, accepted by the code)
+             {'g': [3.0, 1.0, 2.0], 'P': 0.0, 'N': 1.0, 'Es': 2.0, 'branches': ['R5:P=0']},
+             {'g': [5.0], 'P': 0.0, 'N': 0.5, 'Es': 1.0, 'branches': ['R5:P=0']},
+             {'g': [2.0, 2.0], 'P': 0.0, 'N': 1.0, 'Es': 1.0, 'branches': ['R5:P=0']},
+             {'g': [3.0, 1.0, 2.0], 'P': 1.5, 'N': 0.0, 'Es': 2.0, 'branches': ['R5:N=0']},
+             {'g': [4.0, 2.0, 1.0], 'P': 0.0, 'N': 1.0, 'Es': 1.0, 'branches': ['R5:P=0'],
+              'variant': {'garr': 'int32', 'scalars': 'pyint'}}]
     out = drv.ask([line_of(c) for c in cases])
     for c, rep in zip(cases, out):
         compare_one(ctx, c, parse_reply(rep))
+        if c['P'] == 0.0:
+            run_oracle(ctx, 'doWF', clean(c))
+
+
+# ------------------------------------------------------------------ R1-R7 streams
+def gen_int_case(rng, garr, scalars):
+    """integer gains that fit `garr`; integer P, N, Es that fit `scalars` (when integer typed)"""
+    hi = {'int8': 127, 'uint8': 255}.get(garr, 1000)
+    n = rng.randint(1, 8)
+    g = [float(rng.randint(1, hi)) for _ in range(n)]
+    if rng.chance(0.3):
+        g[rng.below(n)] = float(hi)
+    shi = {'int8': 127, 'uint8': 255}.get(scalars, 300)
+    if scalars in INT_TYPES or scalars == 'pyint':
+        P, N, Es = float(rng.randint(1, min(shi, 60))), float(rng.randint(1, 9)), float(rng.randint(1, 6))
+    elif scalars == 'float16':
+        P, N, Es = [float(rng.choice([0.25, 0.5, 1.0, 1.5, 2.0, 3.0, 12.0])) for _ in range(3)]
+    elif scalars == 'float32':
+        P, N, Es = [float(np.float32(logu(rng, -2, 2))) for _ in range(3)]
+    else:
+        P, N, Es = logu(rng, -2, 2), rng.choice([1.0, 0.5, logu(rng, -1, 1)]), rng.choice([1.0, 2.0, logu(rng, -1, 1)])
+    return {'g': g, 'P': P, 'N': N, 'Es': Es, 'variant': {'garr': garr, 'scalars': scalars}}
+
+
+def gen_r1(rng, count):
+    out = []
+    sc_all = ['pyfloat', 'pyint', 'float64', 'float32', 'float16', '0d'] + list(INT_TYPES)
+    for i in range(count):
+        garr = (list(INT_TYPES) + ['float32', 'float64'])[i % 8]
+        scalars = rng.choice(sc_all)
+        if garr == 'float32':
+            c = gen_case(rng, 12)
+            c = {'g': [float(np.float32(x)) for x in c['g']], 'P': c['P'], 'N': c['N'], 'Es': c['Es']}
+            c['variant'] = {'garr': 'float32', 'scalars': 'pyfloat'}
+            if min(c['g']) <= 0 or not np.all(np.isfinite(c['g'])):
+                continue
+        elif garr == 'float64':
+            c = gen_int_case(rng, 'int64', scalars)
+            c['variant'] = {'garr': 'float64', 'scalars': scalars}
+            if rng.chance(0.4):
+                c['variant']['container'] = rng.choice(['list', 'tuple'])
+        else:
+            c = gen_int_case(rng, garr, scalars)
+        out.append(c)
+    # the seeded-change witness and the overflow witness are always present
+    out.append({'g': [4.0, 2.0, 1.0], 'P': 1.0, 'N': 1.0, 'Es': 1.0, 'variant': {'garr': 'int64', 'scalars': 'pyfloat'}})
+    out.append({'g': [4.0, 2.0, 1.0], 'P': 1.0, 'N': 1.0, 'Es': 1.0, 'variant': {'garr': 'uint8', 'scalars': 'pyint'}})
+    out.append({'g': [200.0, 100.0, 3.0], 'P': 1.0, 'N': 1.0, 'Es': 2.0,
+                'variant': {'garr': 'uint8', 'scalars': 'pyint'}})
+    out.append({'g': [100.0, 50.0, 3.0], 'P': 1.0, 'N': 1.0, 'Es': 2.0,
+                'variant': {'garr': 'int8', 'scalars': 'int8'}})
+    out.append({'g': [20000.0, 9.0, 300.0], 'P': 2.0, 'N': 3.0, 'Es': 4.0,
+                'variant': {'garr': 'int16', 'scalars': 'int64'}})
+    return out
+
+
+def gen_r2(rng, count):
+    out = []
+    layouts = ['strided', 'reversed', 'column', 'fcolumn', 'readonly', 'broadcast']
+    for i in range(count):
+        lay = layouts[i % len(layouts)]
+        c = gen_case(rng, 12) if rng.chance(0.7) else gen_int_case(rng, rng.choice(['int32', 'uint8', 'int64']), 'pyfloat')
+        c = clean(c)
+        v = c.setdefault('variant', {})
+        if lay == 'broadcast':
+            c['g'] = [c['g'][0]] * len(c['g'])
+        v['layout'] = lay
+        out.append(c)
+    for shape in ('col2d', 'row2d', '3d', '0d'):
+        for _ in range(max(2, count // 40)):
+            c = clean(gen_case(rng, 6))
+            if rng.chance(0.3):
+                c['g'] = c['g'][:1]
+            c['variant'] = {'shape': shape}
+            out.append(c)
+    return out
+
+
+def gen_r5(rng):
+    """boundary and degenerate values: sizes around powers of two, parameters exactly 1, power
+    exactly at a threshold (dyadic, exact), single channel, P tiny/huge"""
+    out = []
+    for n in (1, 2, 3, 4, 5, 7, 8, 9, 15, 16, 17, 31, 32, 33, 63, 64, 65):
+        g = [quantize(logu(rng, -1, 1), 8) for _ in range(n)]
+        out.append({'g': g, 'P': 1.0, 'N': 1.0, 'Es': 1.0})
+        out.append({'g': [1.0] * n, 'P': 1.0, 'N': 1.0, 'Es': 1.0})
+        gd = [2.0 ** rng.randint(-3, 3) for _ in range(n)]
+        a = sorted(Fraction(1) / Fraction(x) for x in gd)
+        k = rng.randint(1, n)
+        out.append({'g': gd, 'P': float(k * a[k - 1] - sum(a[:k])) or 1.0, 'N': 1.0, 'Es': 1.0, 'style': 'dyadic'})
+    out.append({'g': [1.0], 'P': 1.0, 'N': 1.0, 'Es': 1.0})
+    out.append({'g': [1.0, 1.0], 'P': 1e-300, 'N': 1.0, 'Es': 1.0})
+    out.append({'g': [3.0, 2.0], 'P': 1e100, 'N': 1.0, 'Es': 1.0})
+    for c in out:
+        c['branches'] = ['R5:boundary']
+    return out
+
+
+def gen_r6(rng, count):
+    """whole input at another scale: powers (P, N) and/or gains multiplied by 1e-12 .. 1e12"""
+    out = []
+    for i in range(count):
+        c = gen_case(rng, 10)
+        s = 10.0 ** rng.randint(-12, 12) if i % 2 else 2.0 ** rng.randint(-40, 40)
+        t = 10.0 ** rng.randint(-12, 12)
+        c['P'] *= s
+        c['N'] *= s
+        c['g'] = [x * t for x in c['g']]
+        if rng.chance(0.5):
+            c['N'] *= t
+        c['branches'] = ['R6:scaled-input']
+        out.append(c)
+    for s in (1e-15, 1e-12, 1e-9, 1e9, 1e12):     # the seeded C12_4 scenario
+        out.append({'g': [1.0, 0.5, 0.01], 'P': s, 'N': s, 'Es': 1.0, 'branches': ['R6:scaled-input']})
+        out.append({'g': [1.0 / s, 0.5 / s, 0.01 / s], 'P': s, 'N': 1.0, 'Es': 1.0, 'branches': ['R6:scaled-input']})
+    return out
+
+
+def robustness_oracles(ctx, r1, r2, n_other):
+    """R1-R4, R6, R7 oracles on the implementation (the R5/R6 *streams* also go through the
+    standard oracles and the correspondence)"""
+    for c in [c for c in corpus_cases() if c.get('variant')] + r1:
+        cc = clean(c)
+        run_oracle(ctx, 'doWF.dtype', cc)
+        ctx.branch('R1:' + variant_kind(cc['variant']).split('+')[0])
+        if cc['variant'].get('scalars', 'pyfloat') != 'pyfloat':
+            ctx.branch('R1:scalars')
+        if int_product_overflows(cc):
+            ctx.branch('R1:Es*g-exceeds-int-range')
+        if cc['variant'].get('container'):
+            ctx.branch('R1:list/tuple')
+    for c in r2:
+        cc = clean(c)
+        run_oracle(ctx, 'doWF.layout', cc)
+        ctx.branch('R2:' + (cc['variant'].get('shape') or cc['variant']['layout']))
+    pool = [clean(c) for c in r1 if not (c.get('variant') or {}).get('container')] + \
+           [clean(c) for c in r2 if not c['variant'].get('shape')]
+    for i in range(n_other):
+        c = dict(ctx.rng.choice(pool)) if i % 2 else clean(gen_case(ctx.rng, 10))
+        run_oracle(ctx, 'doWF.immutable', c)
+        ctx.branch('R3:immutability')
+        c4 = dict(c)
+        c4['reject'] = REJECTS[i % len(REJECTS)]
+        run_oracle(ctx, 'doWF.rejected', c4)
+        ctx.branch('R4:' + c4['reject'])
+        c7 = dict(c)
+        c7['powers'] = [ctx.rng.choice([0.5, 1.0, 2.0, 3.0, 0.125, 10.0]) for _ in range(ctx.rng.randint(3, 7))]
+        c7['powers'] += c7['powers'][:2]
+        run_oracle(ctx, 'doWF.history', c7)
+        ctx.branch('R7:history')
+        c6 = clean(gen_case(ctx.rng, 10))
+        kind = ('power-noise', 'gain-noise', 'gain-Es')[i % 3]
+        s = 2.0 ** ctx.rng.randint(-40, 40) if ctx.rng.chance(0.5) else 10.0 ** ctx.rng.randint(-12, 12)
+        c6['scale'] = {'kind': kind, 's': s}
+        run_oracle(ctx, 'doWF.scale', c6)
+        ctx.branch('R6:' + kind)
+    for s in (1e-15, 1e-12, 1e-9, 1e-6, 1e6, 1e12):
+        c6 = {'g': [1.0, 0.5, 0.01], 'P': 1.0, 'N': 1.0, 'Es': 1.0, 'scale': {'kind': 'power-noise', 's': s}}
+        run_oracle(ctx, 'doWF.scale', c6)
 
 
 # ------------------------------------------------------------------ check
@@ -481,6 +1006,8 @@ def oracles(ctx, cases):
     for i, case in enumerate(cases):
         cc = clean(case)
         n = len(cc['g'])
+        if (cc.get('variant') or {}).get('shape') or (cc.get('variant') or {}).get('container'):
+            continue
         run_oracle(ctx, 'doWF', cc, nontrivial=n >= 2)
         co = dict(cc)
         co['oseed'] = ctx.rng.below(1 << 30)
@@ -498,13 +1025,27 @@ def check(ctx):
                 'N, Es in 1e-2..1e2 (Es=1 and Es!=1); P placed between the thresholds of a target number of used '
                 'channels, at multiples of a threshold, or log-uniform; plus a dyadic stream (powers of two) '
                 'compared bit-exactly, boundary cases and corpus/c12; thorough adds every vector over {1/2,1,2,3} of length <= 4 on a P/N/Es grid. Inputs are binary64 values sent to the model '
-                'as exact rationals. non-trivial = distinct input with >= 2 channels')
+                'as exact rationals. Robustness streams: R1 element types/containers, R2 layouts/shapes, R5 boundary '
+                'sizes and values, R6 inputs scaled by 1e-12..1e12 (all through correspondence and the standard '
+                'oracles), plus the R1-R4/R6/R7 twin, immutability, rejected-call, rescaling and shared-array oracles. '
+                'non-trivial = distinct input with >= 2 channels')
     quick = ctx.tier == 'quick'
     n_rand, n_dyadic, nmax, n_big = (3000, 1000, 64, 0) if quick else (20000, 10000, 128, 600)
     core.prove(ctx, MODULE, generated=[], drivers=[DRIVER], scratch=ctx.scratch)
     ctx.required_branches = ['dropped=0', 'dropped>=1', 'only-best-kept', 'Es!=1', 'ties', 'n=1', 'n>=32',
                              'gain-spread>=1e9', 'exact-dyadic', 'error-case']
     cases = make_cases(ctx, n_rand, n_dyadic, nmax, n_big, grid=not quick)
+    # robustness classes: R5/R6 streams and the R1/R2 input variants also go through the
+    # correspondence (model on the logical values) and the standard first-principles oracles
+    r1 = gen_r1(ctx.rng, 240 if quick else 2400)
+    r2 = gen_r2(ctx.rng, 240 if quick else 2400)
+    cases += gen_r5(ctx.rng) + gen_r6(ctx.rng, 300 if quick else 3000)
+    cases += [c for c in r1 + r2 if not c['variant'].get('shape') and not c['variant'].get('container')]
+    ctx.required_branches += [
+        'R1:int-array', 'R1:narrow-int-array', 'R1:float32-array', 'R1:scalars', 'R1:Es*g-exceeds-int-range', 'R1:list/tuple',
+        'R2:strided', 'R2:reversed', 'R2:column', 'R2:fcolumn', 'R2:readonly', 'R2:broadcast',
+        'R2:col2d', 'R2:row2d', 'R2:3d', 'R2:0d', 'R3:immutability'] + ['R4:' + r for r in REJECTS] + [
+        'R5:boundary', 'R5:P=0', 'R6:scaled-input', 'R6:power-noise', 'R6:gain-noise', 'R6:gain-Es', 'R7:history']
     try:
         correspondence(ctx, cases)
         malformed(ctx)
@@ -514,6 +1055,7 @@ def check(ctx):
         ctx.notes.append('correspondence skipped: %s' % e)
         ctx.required_branches = []
     oracles(ctx, cases)
+    robustness_oracles(ctx, r1, r2, 150 if quick else 1500)
     if not quick:
         ctx.branch('grid-enumeration', len(grid_cases()))
 
